@@ -593,9 +593,13 @@ func mutateBytes(t *rapid.T, s string) (string, string) {
 // genSource draws one source case.
 func genSource(t *rapid.T) Case {
 	loadSeeds()
-	gen := rapid.SampledFrom([]string{"bytes", "soup", "hostile-soup", "mutate", "mutate", "mutate-window", "mutate-benign", "mutate-benign", "mutate-benign", "mutate-benign"}).Draw(t, "gen")
+	gen := rapid.SampledFrom([]string{"bytes", "soup", "hostile-soup", "mutate", "mutate", "mutate-window", "mutate-benign", "mutate-benign", "mutate-benign", "mutate-benign", "directive-soup", "directive-soup", "directive-soup"}).Draw(t, "gen")
 	var src string
 	switch gen {
+	case "directive-soup":
+		var lang string
+		src, lang = directiveSoup(t)
+		gen += "(" + lang + ")"
 	case "bytes":
 		prefix := rapid.SampledFrom([]string{"", "", "return ", "x=", "local a = ", "--", "f(", "return '", "return [[", "return 0x", "x = \"\\"}).Draw(t, "prefix")
 		src = prefix + string(rapid.SliceOfN(rapid.Byte(), 0, 80).Draw(t, "bytes"))
@@ -649,6 +653,67 @@ func genSource(t *rapid.T) Case {
 		src = " " + src
 	}
 	return Case{Kind: "source", Src: []byte(src), Text: clip(strconv.Quote(src), 400), Gen: gen}
+}
+
+// Directive soups: programs that hand token concatenations of the string
+// library's little languages (patterns, gsub replacements, format, pack and
+// date directives) to the functions that interpret them, all under pcall.
+var (
+	patTokens  = []string{"a", "b", ".", "%a", "%d", "%s", "%w", "%A", "[ab]", "[^a]", "[a-c]", "[%a_]", "[]]", "[^]]", "()", "(", ")", "%1", "%2", "%3", "%0", "%b()", "%bxy", "%f[a]", "%f[^%z]", "*", "+", "-", "?", "^", "$", "%", "%%", "[", "]", "%(", "\\x00", "x", " "}
+	subjTokens = []string{"a", "b", "ab", "(", ")", "()", " ", "x", "aa", "\\x00", "1", "_", "%", "xy", "ba"}
+	replTokens = []string{"%0", "%1", "%2", "%9", "%%", "x", "%", "%a", " "}
+	fmtTokens  = []string{"%", "%", "d", "s", "q", "c", "x", "a", "g", "f", "i", "u", "5", ".", "3", "-", "+", " ", "#", "0", "99", "%%", "e", "o", "p", "X", "G", "E", "A", "l", "*", "$", "z"}
+	packTokens = []string{"i", "I", "1", "2", "3", "4", "8", "9", "16", "17", "0", "<", ">", "=", "!", "z", "s", "c", "x", "X", "j", "J", "T", "f", "d", "n", "b", "B", "h", "H", "l", "L", " ", "-", "r"}
+	dateTokens = []string{"%", "%", "E", "O", "a", "A", "c", "d", "Y", "y", "x", "X", "*t", "!", "z", "Z", "5", "-", "\\x00", "H", "M", "S", "p", "j", "U", "%%", "G", "s"}
+	soupArgs   = []string{"1", "-1", "0", "1.5", "'s'", "nil", "{}", "math.huge", "math.mininteger", "math.maxinteger", "'10'", "-0.0", "0/0", "true", "'\\0'", "2^53", "255", "256", "-129"}
+)
+
+func soupOf(t *rapid.T, toks []string, max int, label string) string {
+	return strings.Join(rapid.SliceOfN(rapid.SampledFrom(toks), 0, max).Draw(t, label), "")
+}
+
+func directiveSoup(t *rapid.T) (src, lang string) {
+	lang = rapid.SampledFrom([]string{"pattern", "pattern", "pattern", "format", "pack", "date"}).Draw(t, "lang")
+	q := func(s string) string { return `"` + s + `"` } // tokens are already Lua-escaped
+	args := func(n int) string {
+		return strings.Join(rapid.SliceOfN(rapid.SampledFrom(soupArgs), 0, n).Draw(t, "args"), ", ")
+	}
+	var sb strings.Builder
+	switch lang {
+	case "pattern":
+		fmt.Fprintf(&sb, "local s, p, r = %s, %s, %s\n", q(soupOf(t, subjTokens, 6, "subj")), q(soupOf(t, patTokens, 7, "pat")), q(soupOf(t, replTokens, 3, "repl")))
+		fmt.Fprintf(&sb, "local i = %d\n", rapid.IntRange(-3, 8).Draw(t, "init"))
+		sb.WriteString("local out = {}\n")
+		sb.WriteString("out[1] = {pcall(string.find, s, p)}\n")
+		sb.WriteString("out[2] = {pcall(string.find, s, p, i)}\n")
+		sb.WriteString("out[3] = {pcall(string.match, s, p, i)}\n")
+		sb.WriteString("out[4] = {pcall(function() local n = 0 for a, b in string.gmatch(s, p) do n = n + 1 if n > 20 then break end end return n end)}\n")
+		sb.WriteString("out[5] = {pcall(string.gsub, s, p, r)}\n")
+		sb.WriteString("out[6] = {pcall(string.gsub, s, p, function(...) return (...) end, 3)}\n")
+		sb.WriteString("out[7] = {pcall(string.gsub, s, p, {a = 'A', [''] = 1, ab = false})}\n")
+		sb.WriteString("return #out\n")
+	case "format":
+		fmt.Fprintf(&sb, "return pcall(string.format, %s", q(soupOf(t, fmtTokens, 8, "fmt")))
+		if a := args(4); a != "" {
+			sb.WriteString(", " + a)
+		}
+		sb.WriteString(")\n")
+	case "pack":
+		f := q(soupOf(t, packTokens, 8, "fmt"))
+		fmt.Fprintf(&sb, "local f = %s\nlocal out = {}\n", f)
+		fmt.Fprintf(&sb, "out[1] = {pcall(string.packsize, f)}\n")
+		a := args(4)
+		if a != "" {
+			a = ", " + a
+		}
+		fmt.Fprintf(&sb, "out[2] = {pcall(string.pack, f%s)}\n", a)
+		fmt.Fprintf(&sb, "out[3] = {pcall(string.unpack, f, %s, %d)}\n", q(soupOf(t, []string{"\\x00", "\\xff", "\\x01", "a", "\\x80", "\\x03"}, 24, "data")), rapid.IntRange(-2, 6).Draw(t, "pos"))
+		sb.WriteString("if out[2][1] and type(out[2][2]) == 'string' then out[4] = {pcall(string.unpack, f, out[2][2])} end\n")
+		sb.WriteString("return #out\n")
+	case "date":
+		fmt.Fprintf(&sb, "return pcall(os.date, %s, %s)\n", q(soupOf(t, dateTokens, 8, "fmt")), rapid.SampledFrom([]string{"0", "1", "-1", "86400 * 366", "1 << 40", "-(1 << 40)", "1e15", "nil"}).Draw(t, "time"))
+	}
+	return sb.String(), lang
 }
 
 // kfSourceFormat: input class of the open string.format findings, for whole
